@@ -10,6 +10,7 @@ RULES = {
     "Q3": "single hand-out: pop and remove return the payload of their own map removal; pop skips only tickets whose order is gone and reports empty only when the ticket queue is exhausted",
     "Q4": "nothing is dropped on the floor: on every path of the mutators an order taken from the queue is re-inserted, parked and later drained, or fully discounted (balance without aliasing); parked orders are re-queued on every exit",
     "Q5": "the two storage fields are private",
+    "Q6": "a sufficiently large match leaves nothing displayed: match_order returns only with nothing remaining or after the queue reported empty, every iteration that re-inserts the popped order makes progress (less hidden, or equal hidden and less remaining), and an order parked for the rest of the call provably displays nothing (C06's T1/T2/T6 on the same paths)",
 }
 
 
@@ -30,7 +31,7 @@ def _run(ctx, chk):
         "someone else removed it; with Q2 no entry exists without a ticket at or behind the head; with Q3 an entry goes "
         "to exactly one taker; with Q4 a taker puts it back through push or accounts for it. No schedule is explored.")
     chk.assumptions = ["DashMap / SegQueue are linearizable", "unique ids among resting orders"]
-    chk.not_decided = ["linearizability of the containers", "the 'sufficiently large match drains everything' sentence itself (follows from C06 + Q2 on paper)"]
+    chk.not_decided = ["linearizability of the containers", "the 'sufficiently large match drains everything' sentence itself (its sequential structure is Q6; under concurrency it follows from C06 + Q2 on paper)"]
     Q = QueueAnalysis(ctx)
     L = LevelAnalysis(ctx)
     Q.rule_push(chk, "Q1", "Q1")
@@ -40,3 +41,5 @@ def _run(ctx, chk):
     LR.rule_balance_conc(ctx, chk, L, "Q4")
     c06.rule_drain(ctx, chk, L, "Q4")
     Q.rule_private(chk, "Q5")
+    from ..report import Relabel
+    c06.rule_exhaustion(ctx, Relabel(chk, "Q6", "drain:"), L)
